@@ -1,5 +1,6 @@
 """Generator simulation shared by C01, C02 (and C03's observation): scenario builder, instrumented
 callbacks, execution of the three generator types under a decision stream with fault plans."""
+from numbers import Integral
 from collections import Counter
 
 from gcmpy.gcm_algorithm.gcm_algorithm_fast import GCMAlgorithmFast
@@ -164,7 +165,7 @@ def gen_scenario(prng, tier, index, focus):
 # ------------------------------------------------------------------------------------------------
 def norm_edges(ret):
     """A build callback's return value as a list of pairs (a bare pair of ints is one edge)."""
-    if isinstance(ret, (tuple, list)) and len(ret) == 2 and all(isinstance(x, int) for x in ret):
+    if isinstance(ret, (tuple, list)) and len(ret) == 2 and all(isinstance(x, Integral) for x in ret):
         return [tuple(ret)]
     return [tuple(e) for e in ret]
 
